@@ -41,7 +41,15 @@ thread_local! {
     static LIVE_MAPS: RefCell<Vec<u32>> = const { RefCell::new(Vec::new()) };
 }
 
+thread_local! {
+    /// allocations made while this is set are not tracked and produce no events (thread teardown probes)
+    pub static MUTE: Cell<bool> = const { Cell::new(false) };
+}
+
 fn observer(kind: u8, ptr: *mut u8, size: usize, align: usize) {
+    if MUTE.try_with(|m| m.get()).unwrap_or(false) {
+        return;
+    }
     let mut oid = if kind == rust_cc::verif_hooks::KIND_BOX { CUR_NEW.try_with(|c| c.get()).unwrap_or(0) } else { CUR_META.try_with(|c| c.get()).unwrap_or(0) };
     if kind == rust_cc::verif_hooks::KIND_BOX && oid > 100 && oid < 150 {
         // Cleaner::register may allocate a second (empty, immediately dropped) map when a nested register on the
